@@ -19,7 +19,7 @@ use crate::scen;
 use crate::simio::SimFile;
 
 pub fn run(ctx: &mut Ctx) {
-    let big = ctx.tier == Tier::Thorough && gen::chance(1, 40);
+    let big = gen::chance(1, if ctx.tier == crate::harness::Tier::Thorough { 40 } else { 400 });
     let Some(m) = make_archive(ctx, if big { 5 << 20 } else { 96 * 1024 }, big, None) else { return };
     let a = &m.archive;
     let src = &m.source;
